@@ -8,32 +8,40 @@
 From Verif Require Import Base Regex Token TokEngine Lex LexProofs Headers Blocks Pairing Fold ScanFile Spec HeaderSpec
   LexShapes ShapeProofs Grammar GrammarAll.
 From Verif Require Import GrammarProofsParen GrammarProofsBrace GrammarProofsHeaders.
-From Verif Require Import GrammarAllProofsTok GrammarAllProofsWf GrammarAllProofsSel GrammarAllProofsCand GrammarAllProofsCb GrammarAllProofsItems GrammarAllProofsJava GrammarAllProofsTS.
+From Verif Require Import GrammarAllProofsTok GrammarAllProofsCit GrammarAllProofsWf GrammarAllProofsSel GrammarAllProofsCand GrammarAllProofsCb GrammarAllProofsItems GrammarAllProofsJava GrammarAllProofsTS.
 From Verif Require Import SpecCheck SpecCheckAll.
 From Coq Require Import Sorted Permutation.
 Open Scope nat_scope.
 
-(* C, C++, C#: the C-family shape *)
+(* C, C++, C#: the C-family shape (C#: with the headers of `new Name (…) {` statements, dropped by the language's rule) *)
 Lemma canonical_cfamily_shape l ts ds : is_cfamily l = true -> l <> LJava -> canonical_program_of l ts ds ->
-  Permutation (lexical_headers ts) (map header_of ds).
+  exists xs, Permutation (lexical_headers ts) (map header_of ds ++ xs) /\ Forall (newhdr 0 ts) xs /\
+             ((l = LJava \/ l = LCSharp) \/ xs = []).
 Proof.
   intros Hl HnJ H.
-  pose proof (canonical_two_shapes no_throws_kw any_tokens l cand_plain follow_brace cand_never follow_brace
-                (good_oksel _ _ _ _ (good_plain l) (fun w => fsuf_plain follow_brace w fshift_brace frejects_brace))
-                (good_oksel _ _ _ _ (good_never l) (fun _ _ => eq_refl))
-                (head_split_cfamily l Hl HnJ) ts ds (items_of_citems l 0 ts ds H)) as HP.
+  destruct (canonical_two_shapes no_throws_kw any_tokens l cand_plain follow_brace cand_never follow_brace
+              (good_oksel _ _ _ _ (good_plain l) (fun w => fsuf_plain follow_brace w fshift_brace frejects_brace))
+              (good_oksel _ _ _ _ (good_never l) (fun _ _ => eq_refl))
+              (head_split_cfamily l Hl HnJ) (new_split_cfamily l) ts ds (items_of_citems l 0 ts ds H)) as (xs & HP & HX & HL).
   unfold shape_headers at 2 in HP. rewrite select_never, app_nil_r in HP.
-  rewrite lexical_headers_shape. exact HP.
+  rewrite lexical_headers_shape. exists xs. auto.
+Qed.
+
+Lemma canonical_c_shape l ts ds : is_cfamily l = true -> l <> LJava -> l <> LCSharp -> canonical_program_of l ts ds ->
+  Permutation (lexical_headers ts) (map header_of ds).
+Proof.
+  intros Hl H1 H2 H. destruct (canonical_cfamily_shape l ts ds Hl H1 H) as (xs & HP & _ & [[E|E]| ->]); try congruence.
+  rewrite app_nil_r in HP. exact HP.
 Qed.
 
 Lemma canonical_javascript_shape ts ds : canonical_program_of LJavaScript ts ds ->
   Permutation (lexical_headers_JavaScript ts) (map header_of ds).
 Proof.
   intros H. unfold lexical_headers_JavaScript.
-  exact (canonical_two_shapes no_throws_kw any_tokens LJavaScript cand_function follow_brace cand_arrow follow_brace
+  refine (canonical_two_shapes_plain no_throws_kw any_tokens LJavaScript cand_function follow_brace cand_arrow follow_brace
            (good_oksel _ _ _ _ (good_function LJavaScript) (fun w => fsuf_function follow_brace w fshift_brace frejects_brace))
            (good_oksel _ _ _ _ (good_arrow LJavaScript) fsuf_arrow)
-           head_split_javascript ts ds (items_of_citems LJavaScript 0 ts ds H)).
+           head_split_javascript (new_split_none _ _ _ _ _ _ _) ts ds _ _ (items_of_citems LJavaScript 0 ts ds H)); discriminate.
 Qed.
 
 Theorem canonical_of_lexical : forall l ts ds, l <> LPython ->
@@ -41,11 +49,11 @@ Theorem canonical_of_lexical : forall l ts ds, l <> LPython ->
 Proof.
   intros l ts ds Hl H. unfold lexically_canonical_of.
   destruct l; cbn [lexical_headers_of].
-  - apply (canonical_cfamily_shape LC); [reflexivity | discriminate | exact H].
-  - apply (canonical_cfamily_shape LCpp); [reflexivity | discriminate | exact H].
-  - assert (HP : Permutation (lexical_headers ts) (map header_of ds))
-      by (apply (canonical_cfamily_shape LCSharp); [reflexivity | discriminate | exact H]).
-    unfold lexical_headers_CSharp. rewrite (canonical_no_drop _ _ LCSharp ts ds _ (items_of_citems LCSharp 0 ts ds H) HP). exact HP.
+  - apply (canonical_c_shape LC); [reflexivity | discriminate | discriminate | exact H].
+  - apply (canonical_c_shape LCpp); [reflexivity | discriminate | discriminate | exact H].
+  - destruct (canonical_cfamily_shape LCSharp ts ds eq_refl ltac:(discriminate) H) as (xs & HP & HX & _).
+    unfold lexical_headers_CSharp.
+    exact (canonical_filtered _ _ LCSharp ts ds _ xs (items_of_citems LCSharp 0 ts ds H) HP HX).
   - apply canonical_java. exact H.
   - apply canonical_javascript_shape. exact H.
   - congruence.
@@ -444,6 +452,75 @@ Example callback_scan :
   scan_file LJavaScript js7 = expected_all js7 js7_ds js7_ds /\
   scan_file LTypeScript ts7 = expected_all ts7 ts7_ds ts7_ds.
 Proof. vm_compute. split; reflexivity. Qed.
+
+(* `new Name (…) { … } ;` (rule io_new): an anonymous class whose method is reported, an object initialiser
+   void m ( ) { Runnable r = new Runnable ( ) { void run ( ) { x ; } } ; }           (Java)
+   void m ( ) { var v = new Holder ( ) { A = 1 , B = 2 } ; y ; }                     (C#) *)
+Definition java8 : list token :=
+  toks [(0,[118;111;105;100]);(1,[109]);(2,[40]);(2,[41]);(2,[123]);
+        (1,[82;117;110]);(1,[114]);(3,[61]);(0,kw_new);(1,[82;117;110]);(2,[40]);(2,[41]);(2,[123]);
+        (0,[118;111;105;100]);(1,[114;117;110]);(2,[40]);(2,[41]);(2,[123]);(1,[120]);(2,[59]);(2,[125]);
+        (2,[125]);(2,[59]);(2,[125])]%Z.
+Definition java8_ds : list fdesc := [mkFd 1 1 4 4 23; mkFd 14 14 17 17 20].
+Definition cs8 : list token :=
+  toks [(0,[118;111;105;100]);(1,[109]);(2,[40]);(2,[41]);(2,[123]);
+        (0,[118;97;114]);(1,[118]);(3,[61]);(0,kw_new);(1,[72]);(2,[40]);(2,[41]);(2,[123]);
+        (1,[65]);(3,[61]);(7,[49]);(2,[44]);(1,[66]);(3,[61]);(7,[50]);(2,[125]);(2,[59]);
+        (1,[121]);(2,[59]);(2,[125])]%Z.
+Definition cs8_ds : list fdesc := [mkFd 1 1 4 4 24].
+
+Example java8_canonical : canonical_program_of LJava java8 java8_ds.
+Proof.
+  unfold canonical_program_of, java8_ds.
+  let s := eval vm_compute in java8 in change java8 with s.
+  apply (io_func LJava 0 [_] [_; _; _] 0 3 _ [_; _; _; _; _; _; _; _; _; _; _; _; _; _; _; _; _; _] _ [] [_] []);
+    [reflexivity | | reflexivity | reflexivity | | discriminate | constructor].
+  - apply (fh_plain LJava _ [_; _]); [reflexivity | reflexivity | apply (one_group _ [] _); reflexivity].
+  - cbn [length Nat.add].
+    apply (io_new LJava 5 [_; _; _] _ _ [_; _] _ [_; _; _; _; _; _; _; _] _ [] _ [] [_] []);
+      [left; reflexivity | reflexivity | reflexivity | reflexivity | apply (one_group _ [] _); reflexivity | reflexivity | reflexivity
+       | left | constructor | reflexivity | constructor].
+    cbn [length Nat.add].
+    apply (io_func LJava 13 [_] [_; _; _] 0 3 _ [_; _] _ [] [] []);
+      [reflexivity | | reflexivity | reflexivity | | discriminate | constructor].
+    + apply (fh_plain LJava _ [_; _]); [reflexivity | reflexivity | apply (one_group _ [] _); reflexivity].
+    + apply (io_stmt LJava _ [_; _] [] []); [apply one_stmt; reflexivity | constructor].
+Qed.
+
+Example cs8_canonical : canonical_program_of LCSharp cs8 cs8_ds.
+Proof.
+  unfold canonical_program_of, cs8_ds.
+  let s := eval vm_compute in cs8 in change cs8 with s.
+  apply (io_func LCSharp 0 [_] [_; _; _] 0 3 _ [_; _; _; _; _; _; _; _; _; _; _; _; _; _; _; _; _; _; _] _ [] [] []);
+    [reflexivity | | reflexivity | reflexivity | | discriminate | constructor].
+  - apply (fh_plain LCSharp _ [_; _]); [reflexivity | reflexivity | apply (one_group _ [] _); reflexivity].
+  - cbn [length Nat.add].
+    apply (io_new LCSharp 5 [_; _; _] _ _ [_; _] _ [_; _; _; _; _; _; _] _ [] _ [_; _] [] []);
+      [right; reflexivity | reflexivity | reflexivity | reflexivity | apply (one_group _ [] _); reflexivity | reflexivity | reflexivity
+       | right; split; reflexivity | constructor | reflexivity | ].
+    cbn [length Nat.add].
+    apply (io_stmt LCSharp _ [_; _] [] []); [apply one_stmt; reflexivity | constructor].
+Qed.
+
+Example new_hypotheses :
+  (wf_descs java8 java8_ds /\ lexically_canonical_of LJava java8 java8_ds) /\
+  (wf_descs cs8 cs8_ds /\ lexically_canonical_of LCSharp cs8 cs8_ds).
+Proof.
+  split; split.
+  - apply (canonical_of_wf LJava); [discriminate | exact java8_canonical].
+  - apply (canonical_of_lexical LJava); [discriminate | exact java8_canonical].
+  - apply (canonical_of_wf LCSharp); [discriminate | exact cs8_canonical].
+  - apply (canonical_of_lexical LCSharp); [discriminate | exact cs8_canonical].
+Qed.
+
+(* the header `Runnable ( )` / `Holder ( )` after `new` is recognised and dropped; the scan equals the specification *)
+Example new_scan :
+  shape_headers cand_plain follow_throws java8 = [mkHeader 1 1 4; mkHeader 9 9 12; mkHeader 14 14 17] /\
+  lexical_headers_of LJava java8 = [mkHeader 1 1 4; mkHeader 14 14 17] /\
+  lexical_headers_of LCSharp cs8 = [mkHeader 1 1 4] /\
+  scan_file LJava java8 = expected_all java8 java8_ds java8_ds /\
+  scan_file LCSharp cs8 = expected_all cs8 cs8_ds cs8_ds.
+Proof. vm_compute. repeat split; reflexivity. Qed.
 
 (* the hypotheses of the end-to-end theorem hold of the examples: by the theorems ... *)
 Example ts1_hypotheses : wf_descs ts1 ds1 /\ lexically_canonical_of LTypeScript ts1 ds1.
